@@ -46,7 +46,7 @@ def check(ctx):
     n_eps, n_san = label_sinks(ctx, "R12.1", eps)
     ctx.floor("R12.1", "public entry points analysed", n_eps, 30)
     ctx.floor("R12.1", "sanitiser sites on label sources", n_san, 9)
-    r122(ctx)
+    ctx.guard(r122, ctx)
 
 
 def label_sinks(ctx, rule, eps):
